@@ -271,6 +271,31 @@ def _canon(rep, x):
     return o
 
 
+def _drop(o, rep, props, lnk):
+    """remove from a canonical form what the properties/lnk flags are allowed to drop: alignments
+    and surface strings without lnk; morphosemantic properties (and, for DMRS/EDS nodes, the
+    variable type written with them) without properties.  Predicates, constants, arguments,
+    links/edges, constraints, top and index stay."""
+    parts = o.get("rels") if rep == "mrs" else o.get("nodes")
+    if not lnk:
+        for k in ("lnk", "surface"):
+            if k in o:
+                o[k] = None
+        for x in parts:
+            for k in ("lnk", "surface", "base"):
+                if k in x:
+                    x[k] = None
+    if not props:
+        if rep == "mrs":
+            o["vars"] = []
+        else:
+            for x in parts:
+                x["props"] = []
+                if "type" in x:
+                    x["type"] = None
+    return o
+
+
 def _diff(a, b):
     for k in a:
         if a[k] != b[k]:
@@ -313,14 +338,17 @@ def oracle(c):
                 return "item %d of the document differs from the item converted on its own: %s" % (
                     i, _diff(_canon(c["trep"], b), _canon(c["trep"], own)))
         # transcoding within one representation and back gives the original structures
-        if c["rep"] == c["trep"] and c["p"] and c["l"] and c["tgt"] != "dmrspenman" and c["tgt"] != "edspenman" \
+        # (up to what the properties/lnk flags drop; constants, arguments, links stay)
+        if c["rep"] == c["trep"] and c["tgt"] != "dmrspenman" and c["tgt"] != "edspenman" \
                 and c["src"] not in ("dmrspenman", "edspenman"):
             S = _codec(c["src"])
             for b, d in zip(back, c["items"]):
                 orig = S.decode(S.encode(build_item(c["rep"], d)))
-                if _canon(c["rep"], b) != _canon(c["rep"], orig):
-                    return "transcoding %s -> %s changes a structure: %s" % (
-                        c["src"], c["tgt"], _diff(_canon(c["rep"], b), _canon(c["rep"], orig)))
+                cb = _drop(_canon(c["rep"], b), c["rep"], c["p"], c["l"])
+                co = _drop(_canon(c["rep"], orig), c["rep"], c["p"], c["l"])
+                if cb != co:
+                    return "transcoding %s -> %s (properties=%s, lnk=%s) changes a structure: %s" % (
+                        c["src"], c["tgt"], c["p"], c["l"], _diff(cb, co))
         return None
 
 
